@@ -555,7 +555,13 @@ fn spawn_async_ao_list_in_task'''),
     'U16': [
         ('tilde-not-flagged-at-start', 'brush-core/src/escape.rs', "    matches!(c, '#' | '~')", "    matches!(c, '#')"),
         ('bang-not-flagged', 'brush-core/src/escape.rs', "            | '!'\n", ""),
-        ('del-not-control', 'brush-core/src/escape.rs', "    c.is_ascii_control()", "    (c as u32) < 0x20"),
+        ('c1-controls-get-byte-octal', 'brush-core/src/escape.rs', "    c.is_ascii_control()", "    c.is_control()"),
+        ('tab-written-as-vertical-tab', 'brush-core/src/escape.rs', '''            '\\t' => result.push_str("\\\\t"),''', '''            '\\t' => result.push_str("\\\\v"),'''),
+        ('single-quote-first-flag-never-cleared', 'brush-core/src/escape.rs', "        } else {\n            first = false;\n        }\n", "        }\n"),
+        ('empty-value-left-unquoted', 'brush-core/src/escape.rs', "            || s.is_empty()\n            || s.contains(needs_escaping)", "            || s.contains(needs_escaping)"),
+        ('backslash-start-rule-on-second-char', 'brush-core/src/escape.rs', "(i == 0 && needs_escaping_at_start(c))", "(i == 1 && needs_escaping_at_start(c))"),
+        ('ansi-closing-quote-missing', 'brush-core/src/escape.rs', "    result.push('\\'');\n\n    result\n}\n\n// Returns whether", "    result\n}\n\n// Returns whether"),
+        ('default-quotes-skip-start-rule', 'brush-core/src/escape.rs', "            || s.starts_with(needs_escaping_at_start));", "            );"),
         ('dq-backquote-not-escaped', 'brush-core/src/escape.rs', "if matches!(c, '$' | '`' | '\"' | '\\\\') {", "if matches!(c, '$' | '\"' | '\\\\') {"),
     ],
     'U17': [
